@@ -5,9 +5,12 @@ from harness import run_faults as F
 from vlib import core
 from vlib.core import cz, cnat, cbool, clist, cstr
 
-PROPS = "Props/C16.v"
+PROPS = ["Props/C16.v", "Props/C16src.v"]
 THEOREMS = ["C16_lengths_aligned", "C16_lengths_refuted_without_repair", "C16_robust_fit_total", "C16_ten_faults_refuted",
-            "C16_rows_exhausted_refuted", "C16_init_training_terminates", "C16_init_training_unbounded", "C16_update_fallback"]
+            "C16_rows_exhausted_refuted", "C16_init_training_terminates", "C16_init_training_unbounded", "C16_update_fallback",
+            "C16_retry_loop_is_source", "C16_drop_is_applied_to_all_three_is_source", "C16_init_retry_is_source", "C16_restart_is_source",
+            "C16_slice_sampler_after_drop_refuted"]
+TRANSLATORS = ["fitretry"]
 LEVEL = "proof"
 ALLOWED_AXIOMS = []
 RULE = ("fault injection on REAL D=2 runs (max_fun_evals 45-70; deterministic, declared-noise, specified-noise): gpyreg.GP.fit wrapped from "
@@ -20,6 +23,12 @@ RULE = ("fault injection on REAL D=2 runs (max_fun_evals 45-70; deterministic, d
         "taken from the recorded lengths).  non-trivial = controller session with at least one failed attempt")
 TRUSTED = [
     "Coq 8.16.1 kernel + vm_compute (case evaluation); no native_compute",
+    "translate/fitretry.py (fail-closed ast translator of _robust_gp_fit_ and of the `while not fitted` loop of init_and_train_gp -> "
+    "gen/Src_fitretry.v; whitelist in its docstring) and the interpreter Model/FitRetrySrc.v: the generated program is proved equal to "
+    "Model/FitRetry.v for all inputs (Props/C16src.v) and is itself evaluated on every recorded controller session of the fault-injected real "
+    "runs (correspondence:fitretry_source).  Readings: NumPy boolean-mask indexing per row (length mismatch = IndexError); the mask's number "
+    "of True entries is the model's oracle (at least one when a member of the closest pair is marked on both arms); statements of the handler "
+    "that do not touch the lengths (new hyper-parameter start point, noise nudging) are compared as canonical text, not interpreted",
     "hand-written model Model/FitRetry.v of _robust_gp_fit_, the init_and_train_gp retry loop and the update fallback of local_gp_fitting, "
     "tied by comparing the recorded controller transitions of fault-injected real runs",
     "fault model: LinAlgError raised inside GP.fit after the arguments were reshaped and stored (as a failing Cholesky would); why a "
@@ -41,11 +50,18 @@ EXPLANATION = ("Observations OUTSIDE the property's range (single faults, runs o
                "proposal: bind res = None before the loop), not a C16 violation.")
 
 REQUIRES = ["PV.Model.Val", "PV.Model.FitRetry"]
+REQUIRES_SRC = ["PV.Model.Val", "PV.Model.FitRetry", "PV.Model.FitRetrySrc", "PV.gen.Src_fitretry"]
+OK_FUN_SRC = ("fun c => let '(rpat, nX, nY, s2, tmp, fl, dr) := fst c in let '(code, exc, tr) := snd c in "
+              "rf_matches (run_robust src_robust rpat (nth_bool fl) (nth_nat dr) 0 nX nY s2 tmp) code exc tr")
 CASE_TY = "(Z * nat * nat * s2len * option nat * list bool * list nat) * (option Z * string * list attempt)"
 OK_FUN = ("fun c => let '(rpat, nX, nY, s2, tmp, fl, dr) := fst c in let '(code, exc, tr) := snd c in "
           "rf_matches (robust_fit true rpat (nth_bool fl) (nth_nat dr) 0 nX nY s2 tmp) code exc tr")
-INIT_TY = "(list bool) * nat"
-INIT_OK = "fun c => init_matches (init_training 1000 (nth_bool (fst c)) false 0) (snd c)"
+# (fault pattern, (fit invocations, the successful attempt started from the all-zero vector))
+INIT_TY = "(list bool) * (nat * bool)"
+INIT_MATCH = ("(fun (r : init_result) (e : nat * bool) => match r with IReturned n br => Nat.eqb n (fst e) && "
+              "Bool.eqb (match br with BrZeros => true | _ => false end) (snd e) | _ => false end)")
+INIT_OK = f"fun c => {INIT_MATCH} (init_training 1000 (nth_bool (fst c)) false 0) (snd c)"
+INIT_OK_SRC = f"fun c => {INIT_MATCH} (run_init 1000 src_init (nth_bool (fst c)) false 0) (snd c)"
 
 
 def c_s2(v):
@@ -64,6 +80,26 @@ def c_attempt(a):
     return f"(mkA {cnat(a['nX'])} {cnat(a['nY'])} {c_s2(a['s2'])} {c_onat(a['tmp'])})"
 
 
+KNOWN_SLICE = "slice-sampler-after-drop"
+KNOWN_NAN = "slice-sampler-nan-start"      # no Coq counterpart: it is about hyper-parameter VALUES, outside the lengths model
+KNOWN_KEYS = (KNOWN_SLICE, KNOWN_NAN)
+
+
+def violation_key(o, key, msg):
+    """stable key of a run-monitor hit.  The known finding (also listed under C09 as optmatrix:use_slice_sampler): with use_slice_sampler=True the
+    restart evaluates tmp_gp's objective after the drop step shrank tmp_gp.s2 but not tmp_gp.X / tmp_gp.y -> ValueError (broadcast)."""
+    if key != "abort":
+        return key
+    c = o["cfg"]
+    if (msg.startswith("ValueError") and "could not be broadcast" in msg and c.get("opts", {}).get("use_slice_sampler")
+            and c["mode"] != "det" and "_get_samples_from_slice_sampler_" in (o.get("tb") or "")):
+        return KNOWN_SLICE
+    if (msg.startswith("ValueError") and "X0 needs to evaluate to a real number" in msg and c.get("opts", {}).get("use_slice_sampler")
+            and "_get_samples_from_slice_sampler_" in (o.get("tb") or "")):
+        return KNOWN_NAN
+    return "abort:" + msg.split(":")[0]
+
+
 def sessions_of(out):
     """[(session, attempts)] of one run."""
     res = []
@@ -75,7 +111,7 @@ def sessions_of(out):
 
 def robust_case(s, att):
     n = len(att)
-    failed = [(i < n - 1) or ("exc" in s) for i in range(n)]
+    failed = [bool(a.get("raised", (i < n - 1) or ("exc" in s))) for i, a in enumerate(att)]   # LinAlgError seen at the seam (injected or real)
     drops = [att[i]["nX"] - att[i + 1]["nX"] if i < n - 1 else 1 for i in range(n)]
     drops = [max(d, 0) for d in drops]
     code = "None" if "exc" in s else f"(Some {cz(s['ret'])})"
@@ -190,7 +226,7 @@ def tie(ctx, broken):
                 ctx.notes.append(f"run {c['name']} faults={c['faults']}: aborted by an exception unrelated to fit failures "
                                  f"(merged repeat returns an array; reported separately): {msg[:160]}")
                 continue
-            k = "abort:" + msg.split(":")[0] if key == "abort" else key
+            k = violation_key(o, key, msg)
             if k in reported:
                 continue
             reported.add(k)
@@ -228,7 +264,8 @@ def tie(ctx, broken):
                 ctx.count(1, 1 if nf > 0 else 0)
             elif "exc" not in s:
                 n = len(att)
-                init_cases.append(f"({clist([cbool(i < n - 1) for i in range(n)])}, {cnat(n)})")
+                init_cases.append(f"({clist([cbool(a.get('raised', i < n - 1)) for i, a in enumerate(att)])}, "
+                                  f"({cnat(n)}, {cbool(att[-1].get('start') == 'zeros')}))")
                 stat["sessions_with_failures"] += n > 1
                 ctx.count(1, 1 if n > 1 else 0)
                 if len({(a['nX'], a['nY'], a['s2']) for a in att}) != 1:
@@ -240,20 +277,23 @@ def tie(ctx, broken):
         ctx.sample(dict(cfg=o["cfg"], result=o["result"], attempts=o["attempts"][:8],
                         sessions=[{k: v for k, v in s.items()} for s in o["sessions"]][:5]))
     okc, bad, log = core.run_cases("C16rob", REQUIRES, CASE_TY, OK_FUN, rob_cases, shard=max(50, len(rob_cases) // 12 + 1))
+    bad_rob_model = list(bad) if okc else None
     if not ctx.oblige("correspondence:_robust_gp_fit_", "correspondence", okc and not bad,
                       f"{len(bad)} of {len(rob_cases)} recorded controller sessions differ from the model; " + log[-300:]):
         if bad:
             c, s, att = case_src[bad[0]]
             broken.append(("correspondence:_robust_gp_fit_", f"session differs from Model/FitRetry.v: cfg={c} session={s} attempts={att}"))
             if not any(v["concrete"] for v in ctx.violations):
+                # a model-level restatement, not a clause of the property's text: never a CONCRETE violation (the search decides)
                 ctx.violate("controller-differs", f"_robust_gp_fit_ in run {c} behaved unlike the model: session {s}, attempts {att}",
-                            dict(kind="faulted_run", cfg=c))
+                            dict(kind="faulted_run", cfg=c), concrete=False)
         else:
             broken.append(("correspondence:_robust_gp_fit_", "case evaluation failed: " + log[-300:]))
     okc, bad, log = core.run_cases("C16init", REQUIRES, INIT_TY, INIT_OK, init_cases, shard=max(50, len(init_cases) // 6 + 1))
     if not ctx.oblige("correspondence:init_and_train_gp", "correspondence", okc and not bad,
                       f"{len(bad)} of {len(init_cases)} initial-training sessions differ from the model; " + log[-300:]):
         broken.append(("correspondence:init_and_train_gp", f"{len(bad)} initial-training sessions differ from Model/FitRetry.v"))
+    tie_source(ctx, broken, rob_cases, init_cases, bad_rob_model, bad if okc else None, case_src)
 
     # ---- observations outside the property's range, replayed on the real code (they back the _refuted theorems)
     b0 = next((b for b in bases if b["cfg"]["mode"] == "det"), bases[0] if bases else None)
@@ -274,6 +314,36 @@ def tie(ctx, broken):
             ctx.oblige("refutation-replay:" + tag, "correspondence", ok, obs.get(tag, "")[:200])
             if not ok:
                 broken.append(("refutation-replay:" + tag, f"the model's stuck state '{e}' no longer reproduces on the code: {obs.get(tag)}"))
+    # ---- the known finding, replayed on the real code on every run (backs C16_slice_sampler_after_drop_refuted)
+    bs = next((b for b in bases if b["cfg"]["mode"] == "spec"), None)
+    if bs is not None:
+        c = copy.deepcopy(bs["cfg"])
+        c.setdefault("opts", {})["use_slice_sampler"] = True
+        c.update(faults=[1, 2], upd_faults=[], upd_double=False, tag="witness:slice-sampler-after-drop")
+        o = F.run_faulted(c)
+        keys = [violation_key(o, k_, m_) for k_, m_ in o["violations"]]
+        okw = KNOWN_SLICE in keys
+        ctx.oblige("refutation-replay:" + KNOWN_SLICE, "correspondence", okw, str(o["exc"])[:200])
+        if okw:
+            ctx.violate(KNOWN_SLICE, f"specified-noise run (seed {c['seed']}, max_fun_evals {c['budget']}) with use_slice_sampler=True and LinAlgError injected "
+                        f"at fit invocations [1, 2]: {o['exc']}", dict(kind="faulted_run", cfg=c, traceback=(o["tb"] or "")[-700:]))
+        else:
+            broken.append(("refutation-replay:" + KNOWN_SLICE, "the witness of C16_slice_sampler_after_drop_refuted no longer aborts on the code "
+                           f"(repaired?): {o['exc'] or 'run completed'} — update known_findings.d/C16.json and the theorem"))
+    bc = next((b for b in bases if b["cfg"].get("target") == "clip"), None)
+    if bc is not None:
+        c = copy.deepcopy(bc["cfg"])
+        c.setdefault("opts", {})["use_slice_sampler"] = True
+        c.update(faults=[1], upd_faults=[], upd_double=False, tag="witness:slice-sampler-nan-start")
+        o = F.run_faulted(c)
+        okw = KNOWN_NAN in [violation_key(o, k_, m_) for k_, m_ in o["violations"]]
+        ctx.oblige("refutation-replay:" + KNOWN_NAN, "correspondence", okw, str(o["exc"])[:200])
+        if okw:
+            ctx.violate(KNOWN_NAN, f"deterministic run on a saturated target (seed {c['seed']}, max_fun_evals {c['budget']}) with use_slice_sampler=True and ONE "
+                        f"LinAlgError injected at fit invocation 1: {o['exc']}", dict(kind="faulted_run", cfg=c, traceback=(o["tb"] or "")[-700:]))
+        else:
+            broken.append(("refutation-replay:" + KNOWN_NAN, f"the witness of the known finding {KNOWN_NAN} no longer aborts on the code (repaired?): "
+                           f"{o['exc'] or 'run completed'} — update known_findings.d/C16.json"))
     ctx.coverage["observations"] = dict(
         outside_property_range=obs,
         note="10 consecutive faults in one refit -> UnboundLocalError (res unbound); 6 consecutive faults on the 5-row first refit -> "
@@ -281,10 +351,116 @@ def tie(ctx, broken):
              "(property quantifies over 1-4 consecutive / scattered faults)")
 
 
+def tie_source(ctx, broken, rob_cases, init_cases, bad_rob_model, bad_init_model, case_src):
+    """translator validation: the GENERATED programs (gen/Src_fitretry.v) are run by Coq on the same recorded controller sessions
+    of the fault-injected real runs as the hand-written model."""
+    from translate import fitretry as T
+    name = "correspondence:fitretry_source"
+    if not T.generated_ok():
+        _, ex = T.current()
+        ctx.oblige(name, "correspondence", False, f"gen/Src_fitretry.v holds no program (source not translatable): {ex}"[:400])
+        broken.append((name, f"no generated program to validate: {str(ex)[:300]}"))
+        return
+    ok1, bad1, log1 = core.run_cases("C16robsrc", REQUIRES_SRC, CASE_TY, OK_FUN_SRC, rob_cases, shard=max(50, len(rob_cases) // 12 + 1))
+    ok2, bad2, log2 = core.run_cases("C16initsrc", REQUIRES_SRC, INIT_TY, INIT_OK_SRC, init_cases, shard=max(50, len(init_cases) // 6 + 1))
+    ctx.coverage["fitretry_source"] = dict(robust_sessions=len(rob_cases), init_sessions=len(init_cases), generated_differs_on=len(bad1) + len(bad2),
+                                           differs_from_reference=T.diff(T.current()[0]))
+    good = ok1 and ok2 and not bad1 and not bad2
+    detail = (f"generated program vs real code: {len(bad1)} of {len(rob_cases)} _robust_gp_fit_ sessions and {len(bad2)} of {len(init_cases)} "
+              f"initial-training sessions differ; " + (log1 + log2)[-300:])
+    if ctx.oblige(name, "correspondence", good, detail):
+        if (bad_rob_model or bad_init_model):
+            ctx.notes.append("the generated program agrees with the real code where the hand-written model does not: the source has changed, "
+                             f"Model/FitRetry.v no longer describes it; fields that differ from the reference translation: {T.diff(T.current()[0])}")
+        return
+    if not (ok1 and ok2):
+        broken.append((name, "evaluation of the generated program failed: " + (log1 + log2)[-300:]))
+        return
+    only_src = [i for i in bad1 if bad_rob_model is not None and i not in bad_rob_model]
+    if only_src or (bad2 and bad_init_model is not None and not bad_init_model):
+        what = "TRANSLATOR fault: the generated program differs from the real code on sessions where the hand-written model agrees"
+    else:
+        what = "both the hand-written model and the generated program differ from the real code"
+    ex = ""
+    if bad1:
+        c, s_, att = case_src[bad1[0]]
+        ex = f"; first: cfg={c} session={s_} attempts={att}"
+    broken.append((name, what + ex[:700]))
+
+
+# ---- aimed search: fault plans placed on the construct of the source that changed (translate.fitretry.regions_of_diff)
+def aim():
+    from translate import fitretry as T
+    cur, ex = T.current()
+    regions = T.regions_of_diff(cur, ex)
+    why = f"translation stopped: {ex}" if ex is not None else f"fields differing from the reference translation: {T.diff(cur)}"
+    return regions, why
+
+
+def aimed_plan(ctx, bases, regions):
+    cfgs = []
+
+    def add(b, faults, tag, opts=None):
+        c = copy.deepcopy(b["cfg"])
+        if opts:
+            c.setdefault("opts", {}).update(opts)
+        c.update(faults=sorted(set(faults)), upd_faults=[], upd_double=False, tag="aimed:" + tag)
+        cfgs.append(c)
+    for b in bases:
+        K = b["n_fit"]
+        noisy = b["cfg"]["mode"] != "det"
+        if "drop" in regions:
+            # the drop step runs from the (remove_points_after_tries + 1)-th consecutive failure of ONE refit: runs of 2-4 faults at every
+            # refit (k >= 1), noisy modes first (a noise vector accompanies the training set), and the neighbouring option values
+            for start in range(1, K):
+                for ln in ((2, 3, 4) if noisy else (2, 4)):
+                    add(b, range(start, start + ln), f"drop:run{ln}")
+            for rp in (0, 2, 3):
+                for start in (1, 2, max(K - 2, 1)):
+                    add(b, range(start, start + 4), f"drop:rpat{rp}", dict(remove_points_after_tries=rp))
+                add(b, [1], f"drop:rpat{rp}:single", dict(remove_points_after_tries=rp))
+        if "caught" in regions:
+            for k in range(K + 1):
+                add(b, [k], "caught:single")
+        if regions & {"bound", "success"}:
+            for start in range(0, K):
+                add(b, range(start, start + 4), "bound:run4")
+            add(b, [1, 3, 5], "bound:scattered")
+        if "start" in regions:
+            for fl in ([1], [1, 2], [2, 3, 4], [1, 3]):
+                add(b, fl, "start:default")
+                add(b, fl, "start:slice", dict(use_slice_sampler=True))
+                add(b, fl, "start:nudge1", dict(noise_nudge=[1.0], gp_warnings=True))
+                add(b, fl, "start:double_refit", dict(double_refit=True))
+        if "init" in regions:
+            for ln in (1, 2, 3, 4):
+                add(b, range(0, ln), f"init:run{ln}")
+            add(b, [0, 2], "init:scattered")
+    # noisy modes first: that is where a misaligned noise vector shows
+    cfgs.sort(key=lambda c: (c["mode"] == "det",))
+    return cfgs
+
+
 def search(ctx, broken):
-    # everything concrete comes from the faulted runs themselves; widen the panel once
     bases = F.run_pool([dict(c) for c in F.base_configs()])
     bases = [b for b in bases if not b["exc"]]
+    try:
+        regions, why = aim()
+    except Exception as ex:          # aiming is a convenience, never a verdict
+        regions, why = set(), f"aiming failed: {ex!r}"
+    src_broken = any(n.startswith(("translate:", "coq_build", "correspondence:fitretry_source", "theorems_present")) for n, _ in broken)
+    if regions and src_broken:
+        cfgs = aimed_plan(ctx, bases, regions)
+        ctx.coverage["aimed_search"] = dict(regions=sorted(regions), why=why[:400], runs=len(cfgs[:360]))
+        for o in F.run_pool(cfgs[:360], procs=12):
+            for key, msg in o["violations"]:
+                if key != "unrelated-crash" and violation_key(o, key, msg) not in KNOWN_KEYS:
+                    c = o["cfg"]
+                    ctx.violate(violation_key(o, key, msg),
+                                f"{c['mode']} run (seed {c['seed']}, max_fun_evals {c['budget']}, options {c.get('opts', {})}) with LinAlgError injected at "
+                                f"fit invocations {c['faults']}: {msg}  [search aimed at: {sorted(regions)}] [source change: {why[:300]}]",
+                                dict(kind="faulted_run", cfg=c, traceback=(o["tb"] or "")[-700:]))
+                    return True
     old = ctx.tier
     ctx.tier = "thorough"
     try:
@@ -293,9 +469,9 @@ def search(ctx, broken):
         ctx.tier = old
     for o in F.run_pool(cfgs[:400], procs=12):
         for key, msg in o["violations"]:
-            if key != "unrelated-crash":
+            if key != "unrelated-crash" and violation_key(o, key, msg) not in KNOWN_KEYS:
                 c = o["cfg"]
-                ctx.violate("abort:" + msg.split(":")[0] if key == "abort" else key,
+                ctx.violate(violation_key(o, key, msg),
                             f"{c['mode']} run with faults {c['faults']} / update faults {c['upd_faults']}: {msg}", dict(kind="faulted_run", cfg=c))
                 return True
     return False
@@ -312,6 +488,7 @@ def replay(ctx, rp):
     print("sessions:", o["sessions"])
     print("result:", o["result"], "exception:", o["exc"])
     bad = [v for v in o["violations"] if v[0] != "unrelated-crash"]
+    print("keys:", [violation_key(o, k_, m_) for k_, m_ in bad])
     print("replay:", bad or "property holds on this input now")
     if o["tb"]:
         print(o["tb"][-800:])
